@@ -40,12 +40,13 @@ class C10(PropBase):
                            if not (s == "CL" and c == "outstanding")) + \
         tuple("%s/%s/B0" % (m, c) for m in FINAL + NONFINAL for c in ("never", "zero"))
     REQUIRED_REACH = ("refused_with_pending", "repeat_final", "client_bind_while_busy", "client_call_while_binding",
-                      "client_call_after_close", "done_for_nonsearch_id", "entry_then_probe", "refused_in_BI_keeps_state")
+                      "client_call_after_close", "done_for_nonsearch_id", "entry_then_probe", "refused_in_BI_keeps_state",
+                      "send_failed_while_encoding")
 
     def init_op(self, rng):
         role = "s" if rng.random() < 0.8 else "c"
         return {"op": "init", "sessions": [{"name": "x", "role": role}], "observe_pending": True,
-                "lazy_drain": rng.random() < 0.7, "big": rng.choice([0.03, 0.15])}
+                "lazy_drain": rng.random() < 0.7, "big": rng.choice([0.03, 0.15]), "bad_text": rng.choice([0.0, 0.0, 0.04])}
 
     def make(self, init):
         st = St(World(init))
@@ -58,7 +59,7 @@ class C10(PropBase):
         w = st.w
         se = w.s["x"]
         model = se.model
-        g = Gen(rng, big=w.init["big"])
+        g = Gen(rng, big=w.init["big"], bad_text=w.init.get("bad_text", 0.0))
         x = rng.random()
         if se.inbox and x < 0.3:
             return {"op": "deliver", "to": "x", "n": policy.chunk_len(rng, len(se.inbox), "mixed")}
@@ -142,7 +143,9 @@ class C10(PropBase):
             st.x["cells"].add((m, pre.st, acc))
         if not acc:
             # ---- refused: nothing on the wire, library's own error type
-            if not ev["exc"]["ldap"]:
+            if ev.get("arg_error"):
+                st.hit("send_failed_while_encoding")  # an argument that cannot be encoded: only the stream is judged
+            elif not ev["exc"]["ldap"]:
                 raise Violation(P, "wrong-exception/%s" % m, "refused %s raised %s (%s), not an LDAPError; state %s, id class %s" % (
                     m, ev["exc"]["type"], ev["exc"]["msg"], pre.st, cls))
             if after != before:
